@@ -9,6 +9,9 @@ Local Open Scope Z_scope.
 
 Record fstate := { f_bytes : bytes; f_len : Z; f_attr : fattr }.
 
+Section WithFixes.
+Variable cfg : fixes.        (* which repairs of notes/C13-fixes the transcribed code contains *)
+
 (* ---------------------------------------------------------------- ADFI_read_file (+ fseek + read) *)
 Definition read_file (f : fstate) (p : ptr) (len : Z) : out bytes :=
   let '(blk, off) := p in
@@ -25,6 +28,7 @@ Definition read_file (f : fstate) (p : ptr) (len : Z) : out bytes :=
     if base >=? H63 then Err E_MAX_FILE_SIZE
     else let avail := Z.min BLK (f_len f - base) in
       if avail <=? 0 then Err E_FREAD
+      else if fx_short cfg && ((len <? 0) || (off + len >? avail)) then Err E_FREAD     (* repair 13 *)
       else if len <? 0 then OOBW 6                       (* memcpy(data, buf+off, (size_t)len) *)
       else if len =? 0 then Ok []
       else if off + len <=? avail then Ok (sliceZ (f_bytes f) (base + off) len)
@@ -47,7 +51,7 @@ Definition open_attr (bs : bytes) : fattr :=
 Definition mkfile (bs : bytes) : fstate := {| f_bytes := bs; f_len := Z.of_nat (length bs); f_attr := open_attr bs |}.
 
 Definition read_file_header (f : fstate) : out file_header :=
-  d <- read_file f (0, 0) 186 ;; dec_file_header (f_attr f) d.
+  d <- read_file f (0, 0) 186 ;; dec_file_header cfg (f_attr f) d.
 
 (* cgio_check_file, ADF branch (after libhdf5 declined the file) : 1 = ADF, 2 = HDF5 signature, 0 = neither *)
 Definition adf_magic := [65;68;70;32;68;97;116;97;98;97;115;101;32;86;101;114;115;105;111;110].
@@ -95,7 +99,7 @@ Fixpoint index_of (c : Z) (s : bytes) : option nat :=
 
 (* ---------------------------------------------------------------- chunks *)
 Definition read_node_header (f : fstate) (p : ptr) : out node_header :=
-  d <- read_file f p 246 ;; dec_node_header (f_attr f) d.
+  d <- read_file f p 246 ;; dec_node_header cfg (f_attr f) d.
 
 (* the 'z' run of ADFI_read_chunk_length: state (count, cur) *)
 Definition recast {A B} (r : out A) : out B := bind r (fun _ => OutOfFuel).   (* r is not Ok *)
@@ -148,15 +152,10 @@ Definition snt_step (f : fstate) (n cap : Z) (st : Z * ptr * list (bytes * ptr))
 
 Definition snt_count (p e : ptr) : Z := ((((fst e - fst p) * BLK + (snd e - snd p)) mod W64) mod W32) / 44.
 
+(* [cap] = entries_for_sub_nodes of the node header = the size of the caller's array; repair 01 passes it in *)
 Definition read_sub_node_table (f : fstate) (p : ptr) (cap : Z) : out (list (bytes * ptr)) :=
   '(_, e) <- read_chunk_length f p ;;
-  cur <- adjust (fst p, snd p + 16) ;;
-  of_loop (loopN (snt_step f (snt_count p e) cap) (Z.to_nat (f_len f / 44) + 2) (0, cur, [])).
-
-(* the repair proposed in notes/C13.md: refuse a table that does not fit the caller's buffer *)
-Definition read_sub_node_table_fixed (f : fstate) (p : ptr) (cap : Z) : out (list (bytes * ptr)) :=
-  '(_, e) <- read_chunk_length f p ;;
-  if snt_count p e >? cap then Err 24 else
+  if fx_snt cfg && negb (snt_count p e =? cap) then Err E_SNT_ENTRIES_BAD else
   cur <- adjust (fst p, snd p + 16) ;;
   of_loop (loopN (snt_step f (snt_count p e) cap) (Z.to_nat (f_len f / 44) + 2) (0, cur, [])).
 
@@ -180,6 +179,7 @@ Definition dct_count (p e : ptr) : Z := ((((fst e - fst p) * BLK + (snd e - snd 
 Definition read_dct (f : fstate) (p : ptr) (cap : Z) : out (list (ptr * ptr)) :=
   '(tag, e) <- read_chunk_length f p ;;
   if negb (tag_eq_ci tag tag_DCtb) then Err E_DISK_TAG else
+  if fx_dct cfg && negb (dct_count p e =? cap) then Err E_DISK_TAG else          (* repair 02 *)
   tbl <- of_loop (loopN (dct_step f (dct_count p e) cap) (Z.to_nat (f_len f / 24) + 2) (0, (fst p, snd p + 4), [])) ;;
   t <- read_file f e 4 ;;
   if negb (tag_eq_ci t tag_dcTE) then Err E_DISK_TAG else Ok tbl.
@@ -192,7 +192,7 @@ Definition tbl_get {A} (tbl : list A) (cap i : Z) (site : Z) : out A :=
   | None => if i <? cap then Uninit else OOBR site
   end.
 
-Fixpoint c4c_loop (fixed : bool) (tbl : list (bytes * ptr)) (cap : Z) (snt : ptr) (name : bytes) (n : nat) (i : Z)
+Fixpoint c4c_loop (tbl : list (bytes * ptr)) (cap : Z) (snt : ptr) (name : bytes) (n : nat) (i : Z)
   : out (option ptr) :=
   match n with
   | O => Ok None
@@ -200,20 +200,16 @@ Fixpoint c4c_loop (fixed : bool) (tbl : list (bytes * ptr)) (cap : Z) (snt : ptr
       e <- tbl_get tbl cap i 1 ;;
       if names_match (fst e) name then
         _ <- adjust (fst snt, snd snt + 16 + 44 * i) ;; Ok (Some (snd e))
-      else c4c_loop fixed tbl cap snt name n' (i + 1)
+      else c4c_loop tbl cap snt name n' (i + 1)
   end.
 
-(* found child's location, or None.  [fixed] selects the proposed repair (used only by the theorem about it) *)
-Definition check_4_child_name_gen (fixed : bool) (f : fstate) (parent : ptr) (name : bytes) : out (option ptr) :=
+(* found child's location, or None *)
+Definition check_4_child_name (f : fstate) (parent : ptr) (name : bytes) : out (option ptr) :=
   h <- read_node_header f parent ;;
   if nh_nsub h =? 0 then Ok None else
   let cap := nh_entries h in
-  tbl <- (if cap >? 0 then (if fixed then read_sub_node_table_fixed else read_sub_node_table) f (nh_snt h) cap
-          else Ok []) ;;
-  let n := toS32 (nh_nsub h) in
-  let n := if fixed then Z.min n (Z.of_nat (length tbl)) else n in
-  c4c_loop fixed tbl cap (nh_snt h) name (Z.to_nat n) 0.
-Definition check_4_child_name := check_4_child_name_gen false.
+  tbl <- (if cap >? 0 then read_sub_node_table f (nh_snt h) cap else Ok []) ;;
+  c4c_loop tbl cap (nh_snt h) name (Z.to_nat (toS32 (nh_nsub h))) 0.
 
 (* ---------------------------------------------------------------- data types (ADFI_evaluate_datatype) *)
 Definition INTMAX := 2147483647.
@@ -231,65 +227,80 @@ Definition dt_sizes (sz : list Z) (c1 c2 : Z) : option (Z * Z) :=
   else if ((c1 =? 67) && (c2 =? 49)) || ((c1 =? 76) && (c2 =? 75)) then Some (s 0%nat, 1)  (* C1, LK *)
   else None.
 
+(* array length: legacy lets  array_size * 10 + digit  overflow (UB); repair 07 refuses it first *)
 Fixpoint dt_digits (s : bytes) (acc : Z) : out (Z * bytes) :=
   match s with
   | c :: t => if (48 <=? c) && (c <=? 57) then
-                let a := acc * 10 + (c - 48) in if a >? INTMAX then UB else dt_digits t a
+                if fx_dtov cfg && (acc >? 214748363) then Err E_INVALID_DATA_TYPE       (* (INT_MAX - 9) / 10 *)
+                else let a := acc * 10 + (c - 48) in if a >? INTMAX then UB else dt_digits t a
               else Ok (acc, s)
   | [] => Ok (acc, s)
   end.
 
-(* one iteration per token; [tokcap] = number of elements of the caller's tokenized_data_type[] *)
-Fixpoint dt_parse (fuel : nat) (sz : list Z) (tokcap : Z) (s : bytes) (pos0 : bool) (ntok fb mb : Z) : out (Z * Z) :=
+(* *total += size * count  (ADFI_add_type_bytes of repair 07; legacy: plain int arithmetic, overflow = UB) *)
+Definition add_bytes (total size count : Z) : out Z :=
+  let s := total + size * count in
+  if fx_dtov cfg then (if s >? INTMAX then Err E_INVALID_DATA_TYPE else Ok s)
+  else if (size * count >? INTMAX) || (s >? INTMAX) then UB else Ok s.
+
+(* one iteration per token; [tokcap] = number of elements of the caller's tokenized_data_type[].
+   Result (file_bytes, machine_bytes, sizes_equal): sizes_equal = every token left in the array -- the terminating
+   one carries the totals -- has file size = machine size (what ADFI_file_and_machine_compare looks at) *)
+Fixpoint dt_parse (fuel : nat) (sz : list Z) (tokcap : Z) (s : bytes) (pos0 : bool) (ntok fb mb : Z) (teq : bool)
+  : out (Z * Z * bool) :=
   match fuel with
   | O => OutOfFuel
   | S fu =>
     match s with
-    | [] => if ntok >=? tokcap then OOBW 4 else Ok (fb, mb)
+    | [] => if ntok >=? tokcap then OOBW 4 else Ok (fb, mb, teq && (fb =? mb))
     | c1 :: r1 =>
       let c2 := nth 0 r1 0 in
       if (c1 =? 77) && (c2 =? 84) then                       (* MT *)
         (if ntok >=? tokcap then OOBW 4
-         else if pos0 && (match r1 with [_] => true | _ => false end) then Ok (0, 0) else Err E_INVALID_DATA_TYPE)
+         else if pos0 && (match r1 with [_] => true | _ => false end) then Ok (0, 0, true) else Err E_INVALID_DATA_TYPE)
       else match dt_sizes sz c1 c2 with
       | None => Err E_INVALID_DATA_TYPE
       | Some (sf, sm) =>
         if ntok >=? tokcap then OOBW 4 else
         let r2 := tl r1 in
         match r2 with
-        | [] => let fb' := fb + sf in if fb' >? INTMAX then UB else
-                dt_parse fu sz tokcap [] false (ntok + 1) fb' (mb + sm)
+        | [] => fb' <- add_bytes fb sf 1 ;; mb' <- add_bytes mb sm 1 ;;
+                dt_parse fu sz tokcap [] false (ntok + 1) fb' mb' (teq && (sf =? sm))
         | 91 :: r3 =>                                        (* '[' *)
             '(n, r4) <- dt_digits r3 0 ;;
             match r4 with
             | 93 :: r5 =>
                 let r6 := match r5 with 44 :: r => r | _ => r5 end in
-                let fb' := fb + sf * n in let mb' := mb + sm * n in
-                if (sf * n >? INTMAX) || (fb' >? INTMAX) || (sm * n >? INTMAX) || (mb' >? INTMAX) then UB else
-                dt_parse fu sz tokcap r6 false (ntok + 1) fb' mb'
+                fb' <- add_bytes fb sf n ;; mb' <- add_bytes mb sm n ;;
+                dt_parse fu sz tokcap r6 false (ntok + 1) fb' mb' (teq && (sf =? sm))
             | _ => Err E_INVALID_DATA_TYPE
             end
-        | 44 :: r3 => let fb' := fb + sf in if fb' >? INTMAX then UB else
-                      dt_parse fu sz tokcap r3 false ntok fb' (mb + sm)
+        | 44 :: r3 => fb' <- add_bytes fb sf 1 ;; mb' <- add_bytes mb sm 1 ;;     (* the token is overwritten by the next *)
+                      dt_parse fu sz tokcap r3 false ntok fb' mb' teq
         | _ => Err E_INVALID_DATA_TYPE
         end
       end
     end
   end.
 
-Definition eval_dtype (f : fstate) (dtype : bytes) (tokcap : Z) : out (Z * Z) :=
+Definition eval_dtype (f : fstate) (dtype : bytes) (tokcap : Z) : out (Z * Z * bool) :=
   let s := map upc (c_string dtype 32) in
   match s with
   | [] => Err E_LEN_ZERO
-  | _ => h <- read_file_header f ;; dt_parse 40 (fh_sizes h) tokcap s true 0 0 0
+  | _ => h <- read_file_header f ;; dt_parse 40 (fh_sizes h) tokcap s true 0 0 0 true
   end.
 
 (* ---------------------------------------------------------------- data chunks *)
-(* ADFI_read_data_chunk (direct path only); returns the bytes and checks them against the room left in the
-   destination buffer ([room] bytes; site of the buffer in [site]) *)
-Definition direct_read_ok (f : fstate) : bool := (fa_fmt (f_attr f) =? 76) && (fa_os (f_attr f) =? 66).   (* IEEE little, 64-bit *)
+(* ADFI_file_and_machine_compare on a little-endian 64-bit machine ('L' = 76, 'B' = 66): may the bytes be moved
+   without translation?  [teq] = the token sizes of the data type agree (file header vs this machine).  Legacy trusts
+   the header when format and OS size are the machine's; repair 14 always looks at the sizes. *)
+Definition direct_read_ok (f : fstate) (teq : bool) : bool :=
+  (fa_fmt (f_attr f) =? 76) && (if fx_sizes cfg then teq else (fa_os (f_attr f) =? 66) || teq).
+Definition CONV_BUF := 100000.
 
-Definition read_data_chunk (f : fstate) (p : ptr) (chunk_bytes start total room site : Z) : out bytes :=
+(* ADFI_read_data_chunk; returns the bytes and checks them against the room left in the destination buffer
+   ([room] bytes; site of the buffer in [site]).  [fb] = file bytes of one element (data_size) *)
+Definition read_data_chunk (f : fstate) (p : ptr) (fb : Z) (teq : bool) (chunk_bytes start total room site : Z) : out bytes :=
   if total + start >? chunk_bytes then Err E_DATA_TOO_LONG else
   '(tag, e) <- read_chunk_length f p ;;
   if negb (tag_eq_ci tag tag_DaTa) then Err E_DISK_TAG else
@@ -298,14 +309,21 @@ Definition read_data_chunk (f : fstate) (p : ptr) (chunk_bytes start total room 
   ds <- adjust (fst p, (snd p + start + 16) mod W64) ;;
   let chunk_total := toS64 (snd e - snd ds + start + (fst e - fst ds) * BLK) in
   if chunk_bytes >? chunk_total then Err E_DATA_TOO_LONG else
-  if negb (direct_read_ok f) then Ext else
-  d <- read_file f ds total ;;
-  if total >? room then OOBW site else Ok d.
+  if direct_read_ok f teq then
+    d <- read_file f ds total ;;
+    if total >? room then OOBW site else Ok d
+  else if (fa_fmt (f_attr f) =? 76) && (fa_os (f_attr f) =? 66) && (fb >? 0) && (fb <=? CONV_BUF) then
+    (* ADFI_read_data_translated between equal formats: the first buffer-full is read, then
+       ADFI_convert_number_format answers CONVERSION_FORMATS_EQUAL *)
+    let n := (Z.quot total fb) mod W64 in
+    if n =? 0 then Ok [] else
+    _ <- read_file f ds (Z.min n (CONV_BUF / fb) * fb) ;; Err E_CONV_FORMATS_EQUAL
+  else Ext.
 
 Definition prod_dims (h : node_header) : Z :=
   fold_left Z.mul (firstn (Z.to_nat (nh_ndims h)) (nh_dims h)) 1.
 
-Fixpoint rad_loop (f : fstate) (tbl : list (ptr * ptr)) (cap : Z) (n : nat) (i total nread mb fb room : Z) (acc : bytes)
+Fixpoint rad_loop (f : fstate) (teq : bool) (tbl : list (ptr * ptr)) (cap : Z) (n : nat) (i total nread mb fb room : Z) (acc : bytes)
   : out (Z * Z * bytes) :=                                   (* (bytes_read, room left, data) *)
   match n with
   | O => Ok (nread, room, acc)
@@ -315,23 +333,30 @@ Fixpoint rad_loop (f : fstate) (tbl : list (ptr * ptr)) (cap : Z) (n : nat) (i t
       let btr := toS64 ((fst en - fst s) * BLK + (snd en - snd s) - 16) in
       let btr := if nread + btr >? total then total - nread else btr in
       if btr =? 0 then Ok (nread, room, acc) else
-      d <- read_data_chunk f s btr 0 btr room 7 ;;
-      rad_loop f tbl cap n' (i + 1) total (nread + btr) mb fb (room - Z.quot (btr * mb) fb) (acc ++ d)
+      d <- read_data_chunk f s fb teq btr 0 btr room 7 ;;
+      rad_loop f teq tbl cap n' (i + 1) total (nread + btr) mb fb (room - Z.quot (btr * mb) fb) (acc ++ d)
   end.
 
-(* ADF_Read_All_Data(ID, NULL, data) on the (link-chased) node header, data buffer of [cap] bytes.
+(* strncmp(m_data_type, node.data_type, 2) == 0 *)
+Definition strncmp2_eq (m d : bytes) : bool :=
+  let m := m ++ [0; 0] in
+  (nth 0 m 0 =? nth 0 d 0) && ((nth 0 m 0 =? 0) || (nth 1 m 0 =? nth 1 d 0)).
+
+(* ADF_Read_All_Data(ID, m_data_type, data) on the (link-chased) node header, data buffer of [cap] bytes.
    Ok (w, data): w = 0 plain success, 33 / 55 = the NO_DATA / INCOMPLETE_DATA "warnings" (buffer zero-filled) *)
-Definition read_all_data (f : fstate) (h : node_header) (cap : Z) : out (Z * bytes) :=
-  '(fb, mb) <- eval_dtype f (nh_dtype h) 12 ;;
+Definition read_all_data (f : fstate) (h : node_header) (mtype : bytes) (cap : Z) : out (Z * bytes) :=
+  if negb (if fx_rtype cfg then beq mtype (c_string (nh_dtype h) 32) else strncmp2_eq mtype (nh_dtype h))
+  then Err E_INVALID_DATA_TYPE else
+  '(fb, mb, teq) <- eval_dtype f (nh_dtype h) 12 ;;
   if (fb =? 0) || (nh_ndims h =? 0) then Err E_NO_DATA else
   let total := toS64 (fb * prod_dims h) in
   if nh_nchunks h =? 0 then
     (if (Z.quot (toS64 (total * mb)) fb) mod W64 >? cap then OOBW 7 else Ok (E_NO_DATA, []))
   else if nh_nchunks h =? 1 then
-    d <- read_data_chunk f (nh_data h) total 0 total cap 7 ;; Ok (0, d)
+    d <- read_data_chunk f (nh_data h) fb teq total 0 total cap 7 ;; Ok (0, d)
   else
     tbl <- read_dct f (nh_data h) (nh_nchunks h) ;;
-    '(nread, room, d) <- rad_loop f tbl (nh_nchunks h) (Z.to_nat (nh_nchunks h)) 0 total 0 mb fb cap [] ;;
+    '(nread, room, d) <- rad_loop f teq tbl (nh_nchunks h) (Z.to_nat (nh_nchunks h)) 0 total 0 mb fb cap [] ;;
     if nread <? total then (if total - nread >? room then OOBW 7 else Ok (E_INCOMPLETE_DATA, d)) else Ok (0, d).
 
 (* ---------------------------------------------------------------- links *)
@@ -341,28 +366,39 @@ Definition is_LK (h : node_header) : bool := (nth 0 (nh_dtype h) 0 =? 76) && (nt
 Definition is_link (f : fstate) (id : ptr) : out Z :=
   h <- read_node_header f id ;; Ok (if is_LK h then toS32 (nth 0 (nh_dims h) 0) else 0).
 
-(* ADF_Get_Link_Path into file[capf], name_in_file[capp] *)
-Definition get_link_path (f : fstate) (id : ptr) (capf capp : Z) : out (bytes * bytes) :=
-  h <- read_node_header f id ;;
-  if negb (is_LK h) then Err E_NOT_A_LINK else
-  '(fb, mb) <- eval_dtype f (nh_dtype h) 2 ;;
-  if negb (fb =? 1) then Ext else
-  let d0 := nth 0 (nh_dims h) 0 in
-  let total := toS32 d0 in
-  d <- read_data_chunk f (nh_data h) total 0 total 5122 3 ;;
-  if d0 >=? 5122 then OOBW 3 else
-  let full := d ++ [0] in
+Definition LINK_BUF := 5122.      (* char link_data[ADF_FILENAME_LENGTH + ADF_MAX_LINK_DATA_SIZE + 1 + 1] *)
+
+(* the tail of ADF_Get_Link_Path: split the NUL-terminated link text at the separator '>' *)
+Definition split_link (full : bytes) (capf capp : Z) : out (bytes * bytes) :=
   let s := cstr_or_all full in
   match index_of 62 s with
   | Some (S k) =>
       let file := firstn (S k) s in let path := skipn (S (S k)) s in
+      if fx_link cfg && ((Z.of_nat (S k) >? 1024) || (Z.of_nat (length path) >? 4096)) then Err E_LEN_BIG else
       if (Z.of_nat (S k) + 1 >? capf) || (Z.of_nat (length path) + 1 >? capp) then OOBW 8 else Ok (file, path)
   | _ => match full with
          | [_] | [] => Uninit
          | _ :: t => let path := cstr_or_all t in
+                     if fx_link cfg && (Z.of_nat (length path) >? 4096) then Err E_LEN_BIG else
                      if Z.of_nat (length path) + 1 >? capp then OOBW 8 else Ok ([], path)
          end
   end.
+
+(* ADF_Get_Link_Path into file[capf], name_in_file[capp] *)
+Definition get_link_path (f : fstate) (id : ptr) (capf capp : Z) : out (bytes * bytes) :=
+  h <- read_node_header f id ;;
+  if negb (is_LK h) then Err E_NOT_A_LINK else
+  let c2 := nth 2 (nh_dtype h) 0 in
+  if fx_link cfg && negb ((c2 =? 32) || (c2 =? 0)) then Err E_INVALID_DATA_TYPE else
+  '(fb, mb, teq) <- eval_dtype f (nh_dtype h) 2 ;;
+  let d0 := nth 0 (nh_dims h) 0 in
+  if fx_link cfg && negb (nh_ndims h =? 1) then Err E_BAD_NDIMS else
+  if fx_link cfg && ((fb <? 1) || (d0 <? 1) || (d0 >? (LINK_BUF - 1) / fb)) then Err E_BAD_DIM_VALUE else
+  if negb (fx_link cfg) && negb (fb =? 1) then Ext else      (* legacy: file_bytes * (int)dim in int arithmetic *)
+  let total := toS32 (fb * toS32 d0) in
+  d <- read_data_chunk f (nh_data h) fb teq total 0 total LINK_BUF 3 ;;
+  if d0 >=? LINK_BUF then OOBW 3 else
+  split_link (firstn (Z.to_nat d0) d ++ [0]) capf capp.          (* link_data[dim] = 0 *)
 
 (* ADFI_chase_link with ADF_Get_Node_ID passed in (they are mutually recursive in the C) *)
 Fixpoint chase_loop (g : ptr -> bytes -> out ptr) (f : fstate) (n : nat) (id : ptr) (depth : Z) : out (ptr * node_header) :=
@@ -401,8 +437,14 @@ Fixpoint gni_tokens (chase : ptr -> out (ptr * node_header)) (f : fstate) (toks 
       end
   end.
 
-(* ADF_Get_Node_ID; fuel = nesting depth of Get_Node_ID -> chase_link -> Get_Node_ID ... *)
-Fixpoint get_node_id (fuel : nat) (f : fstate) (pid : ptr) (name : bytes) : out ptr :=
+(* ADFI_chase_link entered while [nest] activations of it are on the stack (the static counter of repair 04);
+   [g] = ADF_Get_Node_ID as it runs inside this activation *)
+Definition chase_at (g : ptr -> bytes -> out ptr) (f : fstate) (nest : Z) (id : ptr) : out (ptr * node_header) :=
+  if fx_nest cfg && (nest >=? 100) then Err E_LINKS_TOO_DEEP else chase_loop g f 102 id 0.
+
+(* ADF_Get_Node_ID with [nest] activations of ADFI_chase_link on the stack; fuel = how much deeper the
+   Get_Node_ID -> chase_link -> Get_Node_ID ... nesting may still go *)
+Fixpoint get_node_id (fuel : nat) (f : fstate) (nest : Z) (pid : ptr) (name : bytes) : out ptr :=
   match fuel with
   | O => OutOfFuel
   | S fu =>
@@ -414,16 +456,17 @@ Fixpoint get_node_id (fuel : nat) (f : fstate) (pid : ptr) (name : bytes) : out 
           match split_slash name with
           | [] => Err E_INVALID_NODE_NAME
           | toks =>
-              let chase := fun id => chase_loop (get_node_id fu f) f 102 id 0 in
+              let chase := chase_at (get_node_id fu f (nest + 1)) f nest in
               '(lid, _) <- chase id0 ;;
               gni_tokens chase f toks lid lid
           end
       end
   end.
 
-Definition LINK_FUEL : nat := 48.
+Definition LINK_FUEL : nat := 104.
 Definition chase_link (f : fstate) (id : ptr) : out (ptr * node_header) :=
-  chase_loop (get_node_id LINK_FUEL f) f 102 id 0.
+  chase_at (get_node_id LINK_FUEL f 1) f 0 id.
+Definition get_node_id_top (f : fstate) (pid : ptr) (name : bytes) : out ptr := get_node_id (S LINK_FUEL) f 0 pid name.
 
 (* ---------------------------------------------------------------- children *)
 (* the loop shared by ADF_Children_Names / ADF_Children_IDs (istart = 1): raw 44-byte entries *)
@@ -450,7 +493,7 @@ Inductive ev :=
 | EvK0 (r : out Z)                           (* ADF_Is_Link *)
 | EvK (r : out (bytes * bytes))              (* ADF_Get_Link_Path *)
 | EvL (r : out bytes)                        (* ADF_Get_Label (first call that chases the link) *)
-| EvT (t : bytes) | EvD (n : Z) | EvV (dims : list Z) | EvC (n : Z)
+| EvT (t : bytes) | EvD (n : Z) | EvV (r : out (list Z)) | EvC (n : Z)     (* ADF_Get_Dimension_Values *)
 | EvX (r : out (Z * bytes))                  (* ADF_Read_All_Data *)
 | EvM (r : out (list bytes))                 (* ADF_Children_Names *)
 | EvI (r : out (list ptr))                   (* ADF_Children_IDs *)
@@ -493,17 +536,21 @@ Definition visit_chased (f : fstate) (id : ptr) (depth : Z) (pre : list ev) : li
   let rc := chase_link f id in
   match rc with
   | Ok (lid, h) =>
-      let t := c_string (nh_dtype h) 2 in
+      let t := c_string (nh_dtype h) 2 in          (* ADF_Get_Data_Type: the first ADF_CGIO_DATA_TYPE_LENGTH characters *)
       let nd := nh_ndims h in
       let dims := firstn (Z.to_nat nd) (nh_dims h) in
-      let head := pre ++ [EvL (Ok (c_string (nh_label h) 32)); EvT t; EvD nd] ++
-                  (if nd >? 0 then [EvV dims] else []) ++ [EvC (toS32 (nh_nsub h))] in
+      let pre2 := pre ++ [EvL (Ok (c_string (nh_label h) 32)); EvT t; EvD nd] in
+      if fx_dim cfg && (nd >? 0) && negb (forallb (fun d => d <? H63) dims) then
+        (pre2 ++ [EvV (Err E_BAD_DIM_VALUE)], Some [])          (* repair 11; the client gives the node up *)
+      else
+      let head := pre2 ++ (if nd >? 0 then [EvV (Ok dims)] else []) ++ [EvC (toS32 (nh_nsub h))] in
       let ms := mach_size t in
       let cnt := prod_dims h in
       let want := (ms >? 0) && (nd >? 0) && forallb (fun d => (0 <? d) && (d <=? DATA_CAP)) dims &&
                   (cnt * ms <=? DATA_CAP) in
       if want then
-        let r := match read_all_data f h (cnt * ms) with          (* the client's buffer is calloc'ed and hashed whole *)
+        (* the client's buffer: calloc(cnt * ms), hashed whole; it passes the type it was told *)
+        let r := match read_all_data f h t (cnt * ms) with
                  | Ok (w, d) => Ok (w, d ++ repeat 0 (Z.to_nat (cnt * ms) - length d))
                  | r => r
                  end in
@@ -541,7 +588,7 @@ Fixpoint walk_loop (fuel : nat) (f : fstate) (stack : list pending) : list ev :=
       match fuel with
       | O => [EvFuel]
       | S fu =>
-          let rg := get_node_id LINK_FUEL f pid nm in
+          let rg := get_node_id_top f pid nm in
           match rg with
           | Ok cid =>
               let '(evs, k) := visit f cid d in
@@ -563,6 +610,8 @@ Definition walk (fuel : nat) (bs : bytes) : walk_result :=
       WOk root (match k with Some kids => evs ++ walk_loop fuel f kids | None => evs end)
   | r => WOpenFail (bind r (fun _ => Ok tt))
   end.
+
+End WithFixes.
 
 (* data checksum printed instead of the bytes *)
 Definition cksum (d : bytes) : Z := fold_left (fun h b => (h * 31 + b) mod W32) d 7.
@@ -619,5 +668,53 @@ Definition wit_abort : bytes := firstn 100 wit_valid ++ [0] ++ skipn 101 wit_val
 Definition wit_tagscan : bytes := firstn 508 wit_valid ++ [88] ++ skipn 509 wit_valid.
 (* truncated inside the root node header: ADFI_read_file serves rd_block_buffer bytes it never read *)
 Definition wit_stale : bytes := firstn 400 wit_valid.
+
+
+(* ---- one witness per repair that had none above (01: oobw / oobr, 03: biglink, 04: linkrec, 05: abort, 06: tagscan,
+        13: stale) *)
+(* root with one child [name] located at 884, described by the 246 bytes [node]; [rest] follows at 1130 *)
+Definition wit_one (hdr : bytes) (name : bytes) (node rest : bytes) : bytes :=
+  hdr
+  ++ mk_node nm_root [82] MT 1 8 (0, 512) 0 0 0 blank_ptr                                (* 266 *)
+  ++ enc_snt wa (0, 880) ((pad32 name, (0, 884)) :: repeat blank_entry 7)                (* 512 .. 884 *)
+  ++ node ++ rest.                                                                       (* 884, 1130 *)
+Definition tI4 := [73; 52].
+(* 02: node D (I4, 2 values, 2 data chunks); the data-chunk table holds 2 entries, its end pointer claims 6 *)
+Definition wit_dct : bytes :=
+  wit_one wit_header [68] (mk_node [68] [76; 68] tI4 0 0 blank_ptr 1 2 2 (0, 1130))
+    (enc_dct wa (0, 1130 + 16 + 24 * 6) [((0, 1198), (0, 1218)); ((0, 1222), (0, 1242))]       (* 1130 .. 1198 *)
+     ++ enc_data_chunk wa (0, 1218) [1; 0; 0; 0] ++ enc_data_chunk wa (0, 1242) [2; 0; 0; 0]   (* 1198, 1222 .. 1246 *)
+     ++ repeat 0 154).
+(* 03, other fields: length 2^64-1 (negative as int), length 2^63 (0 as int), a data type of five tokens *)
+Definition wit_link_with (dtype : bytes) (d0 : Z) : bytes :=
+  wit_one wit_header [76] (mk_node [76] [] dtype 0 0 blank_ptr 1 d0 1 (0, 1130))
+    (enc_data_chunk wa (0, 1151) [62; 47; 76; 47; 120]).
+Definition wit_neglink : bytes := wit_link_with [76; 75] (W64 - 1).
+Definition wit_hugelink : bytes := wit_link_with [76; 75] H63.
+Definition wit_toklink : bytes :=
+  wit_link_with ([76; 75; 91; 49; 93] ++ flat_map (fun _ => [67; 49; 91; 49; 93]) [1; 2; 3; 4]) 5.   (* LK[1]C1[1]C1[1]C1[1]C1[1] *)
+(* 05, other letter: format byte 0xFF (a negative char) *)
+Definition wit_fmtneg : bytes := firstn 100 wit_valid ++ [255] ++ skipn 101 wit_valid.
+(* 07: array length that does not fit an int *)
+Definition wit_dtov : bytes :=
+  wit_one wit_header [68] (mk_node [68] [76; 68] (tI4 ++ [91] ++ repeat 57 14 ++ [93]) 0 0 blank_ptr 1 1 1 (0, 1130))
+    (enc_data_chunk wa (0, 1150) [1; 0; 0; 0]).
+(* 08: node typed "I4,I4" (8 bytes an element), one element; the client is told "I4" and brings 4 bytes *)
+Definition wit_rtype : bytes :=
+  wit_one wit_header [68] (mk_node [68] [76; 68] (tI4 ++ [44] ++ tI4) 0 0 blank_ptr 1 1 1 (0, 1130))
+    (enc_data_chunk wa (0, 1154) [1; 0; 0; 0; 2; 0; 0; 0]).
+(* 11: dimension value 2^63 *)
+Definition wit_dim : bytes :=
+  wit_one wit_header [68] (mk_node [68] [76; 68] tI4 0 0 blank_ptr 1 H63 1 (0, 1130))
+    (enc_data_chunk wa (0, 1150) [1; 0; 0; 0]).
+(* 14: the file header declares sizeof(int) = 8; node D is I4 with one element and 8 bytes of data *)
+Definition wit_header8 : bytes :=
+  enc_file_header wa {| fh_what := what_B02; fh_cdate := repeat 32 28; fh_mdate := repeat 32 28; fh_fmt := 76; fh_os := 66;
+                        fh_sizes := [1; 2; 8; 8; 4; 8; 8; 8; 8; 8; 8; 8];
+                        fh_root := (0, 266); fh_eof := (0, 4095); fh_free := (0, 186); fh_extra := blank_ptr |}
+  ++ enc_fct wa (repeat blank_ptr 6).
+Definition wit_sizes : bytes :=
+  wit_one wit_header8 [68] (mk_node [68] [76; 68] tI4 0 0 blank_ptr 1 1 1 (0, 1130))
+    (enc_data_chunk wa (0, 1154) [1; 0; 0; 0; 2; 0; 0; 0]).
 
 Definition walk_events (r : walk_result) : list ev := match r with WOk _ evs => evs | WOpenFail _ => [] end.
